@@ -12,7 +12,92 @@ from pathlib import Path
 import numpy as np
 
 from pipeline import Result
+from common import cz, cnat, cfloat, clist, cbool, copt, eval_cases
 import hist
+
+NAMES = {"radius": "NRadius", "diameter": "NDiameter", "tolerance": "NTolLegacy",
+         "tolerance-legacy": "NTolLegacy", "tolerance-diameter": "NTolDiameter",
+         "tolerance-radius": "NTolRadius", "never-merge": "NNever"}
+
+
+class Spy:
+    """replaces bblean.bitbirch.BitBirch while `bb run` executes and records the API calls the
+    command makes on the estimator it creates (the plan of Model/Cli.v)"""
+
+    def __init__(self, files):
+        import bblean.bitbirch as bbm
+        self.bbm = bbm
+        self.real = bbm.BitBirch
+        self.log = []
+        self.files = [str(Path(f).resolve()) for f in files]
+        spy = self
+
+        class SpyBB(self.real):
+            def __init__(self, *a, **kw):
+                spy.log.append(("ctor", kw.get("merge_criterion"), kw.get("tolerance"), kw.get("threshold"),
+                                kw.get("branching_factor")))
+                super().__init__(*a, **kw)
+
+            def fit(self, X, *a, **kw):
+                k = spy.files.index(str(Path(X).resolve())) if isinstance(X, (str, Path)) else -1
+                spy.log.append(("fit", k))
+                return super().fit(X, *a, **kw)
+
+            def set_merge(self, criterion=None, *a, **kw):
+                spy.log.append(("set_merge", criterion, kw.get("tolerance"), kw.get("threshold")))
+                return super().set_merge(criterion, *a, **kw)
+
+            def refine_inplace(self, X, *a, **kw):
+                spy.log.append(("refine", kw.get("n_largest")))
+                return super().refine_inplace(X, *a, **kw)
+
+            def recluster_inplace(self, *a, **kw):
+                spy.log.append(("recluster",))
+                return super().recluster_inplace(*a, **kw)
+
+            def get_centroids_mol_ids(self, *a, **kw):
+                spy.log.append(("save",))
+                return super().get_centroids_mol_ids(*a, **kw)
+
+            def get_cluster_mol_ids(self, *a, **kw):
+                if not spy.log or spy.log[-1] != ("save",):
+                    spy.log.append(("save",))
+                return super().get_cluster_mol_ids(*a, **kw)
+
+            def save(self, path, *a, **kw):       # pickles by class reference: save as the real class
+                self.__class__ = spy.real
+                try:
+                    return spy.real.save(self, path, *a, **kw)
+                finally:
+                    self.__class__ = SpyBB
+        self.cls = SpyBB
+
+    def __enter__(self):
+        self.bbm.BitBirch = self.cls
+        return self
+
+    def __exit__(self, *exc):
+        self.bbm.BitBirch = self.real
+
+
+def call_term(c):
+    if c[0] == "ctor":
+        return f"(ACtor {NAMES.get(c[1], 'NUnknown')} {cfloat(c[2])} {cfloat(c[3])} {cz(c[4])})"
+    if c[0] == "fit":
+        return f"(AFitFile {cnat(c[1])})" if c[1] >= 0 else "ASave"
+    if c[0] == "set_merge":
+        return f"(ASetMerge {NAMES.get(c[1], 'NUnknown')} {cfloat(c[2])} {cfloat(c[3])})"
+    if c[0] == "refine":
+        return f"(ARefine {cz(c[1])})"
+    if c[0] == "recluster":
+        return "ARecluster"
+    return "ASave"
+
+
+def opts_term(o):
+    return (f"(mkRunOpts {NAMES[o['merge']]} {NAMES[o['refine_merge']]} {cfloat(o['tol'])} {cfloat(o['thr'])} "
+            f"{cz(o['bf'])} {cfloat(o['change'])} {cz(o['refine_num'])} {copt(o['refine_rounds'], cz)} "
+            f"{cz(o['recluster_rounds'])})")
 
 warnings.filterwarnings("ignore")
 
@@ -42,7 +127,7 @@ def gen_run_opts(rng):
         "merge": rng.choice(hist.CRITS), "refine_merge": rng.choice(hist.CRITS),
         "tol": rng.choice([0.05, 0.0, 0.2]), "thr": rng.choice([0.3, 0.5, 0.65]),
         "bf": rng.choice([3, 5, 50]), "change": rng.choice([0.0, 0.1, -0.1]),
-        "refine_num": rng.choice([0, 1, 2]), "refine_rounds": rng.choice([0, 0, 1, 2]),
+        "refine_num": rng.choice([0, 1, 2]), "refine_rounds": rng.choice([None, 0, 0, 1, 2]),
         "recluster_rounds": rng.choice([0, 0, 1, 2]), "save_tree": rng.random() < 0.3,
         "save_centroids": rng.random() < 0.7, "copy": rng.random() < 0.5,
         "packed": rng.random() < 0.5, "nf": rng.choice([8, 16, 24, 12]),
@@ -59,11 +144,14 @@ def api_run(o, paths):
     for p in paths:
         tree.fit(p, n_features=o["nf"], input_is_packed=o["packed"])
     refine_num = o["refine_num"]
-    if o["refine_rounds"] > 0 and refine_num == 0:
+    refine_rounds = o["refine_rounds"]
+    if refine_rounds is None:   # documented default: one round iff clusters to refine were given
+        refine_rounds = 1 if refine_num > 0 else 0
+    if refine_rounds > 0 and refine_num == 0:
         refine_num = 1          # documented: refinement rounds imply at least one cluster to refine
-    if o["recluster_rounds"] != 0 or o["refine_rounds"] != 0:
+    if o["recluster_rounds"] != 0 or refine_rounds != 0:
         tree.set_merge(o["refine_merge"], tolerance=o["tol"], threshold=o["thr"] + o["change"])
-        for _ in range(o["refine_rounds"]):
+        for _ in range(refine_rounds):
             tree.refine_inplace(paths, input_is_packed=o["packed"], n_largest=refine_num)
         for _ in range(o["recluster_rounds"]):
             tree.recluster_inplace(shuffle=False)
@@ -76,7 +164,8 @@ def run_args(o, in_path, out_dir):
     a = ["run", str(in_path), "-o", str(out_dir), "-b", str(o["bf"]), "-t", str(o["thr"]),
          "--set-merge", o["merge"], "--set-refine-merge", o["refine_merge"], "--tolerance", str(o["tol"]),
          "--refine-threshold-change", str(o["change"]), "--refine-num", str(o["refine_num"]),
-         "--refine-rounds", str(o["refine_rounds"]), "--recluster-rounds", str(o["recluster_rounds"]),
+         *(["--refine-rounds", str(o["refine_rounds"])] if o["refine_rounds"] is not None else []),
+         "--recluster-rounds", str(o["recluster_rounds"]),
          "--n-features", str(o["nf"]), "--no-verbose", "--no-recluster-shuffle"]
     a += ["--save-tree"] if o["save_tree"] else ["--no-save-tree"]
     a += ["--save-centroids"] if o["save_centroids"] else ["--no-save-centroids"]
@@ -134,6 +223,7 @@ def suite_cli(seed, tier):
     n_run = 14 if tier == "quick" else 150
     n_mr = 6 if tier == "quick" else 60
     cases = 0
+    terms, meta = [], []
     stats = {"run": 0, "multiround": 0, "refused": 0, "overwritten": 0, "monitor": 0}
     for _ in range(n_run):
         o = gen_run_opts(rng)
@@ -150,9 +240,23 @@ def suite_cli(seed, tier):
             if o["dirty"]:
                 out.mkdir()
                 (out / "old.txt").write_text("precious")
-            rc, txt, exc = invoke(run_args(o, in_arg, out))
+            with Spy(use) as spy:
+                rc, txt, exc = invoke(run_args(o, in_arg, out))
             cases += 1
             stats["run"] += 1
+            # Model/Cli.v: the output-directory decision and the plan of API calls
+            if o["dirty"] and not o["overwrite"]:
+                seen = "VdErrHasFiles" if rc != 0 else "VdOk"
+            elif o["dirty"]:
+                seen = "VdCleared" if (rc == 0 and not (out / "old.txt").exists()) else "VdOk"
+            else:
+                seen = "VdOk"
+            terms.append(f"check_validate {cbool(bool(o['dirty']))} true {cbool(bool(o['dirty']))} "
+                         f"{cbool(o['overwrite'])} {seen}")
+            meta.append(("validate", {k: v for k, v in o.items()}))
+            if rc == 0:
+                terms.append(f"check_plan {opts_term(o)} {cnat(len(use))} {clist(spy.log, call_term)}")
+                meta.append(("plan", {**{k: v for k, v in o.items()}, "observed_calls": [list(map(str, c)) for c in spy.log]}))
             stats["monitor"] += 1 if o["monitor"] else 0
             desc = {k: v for k, v in o.items()}
             if o["dirty"] and not o["overwrite"]:
@@ -241,6 +345,13 @@ def suite_cli(seed, tier):
                 r.bad.append({"suite": "cli", "what": pr, "cfg": c})
             if any(p.name.startswith("round-") for p in (tmp / "out").iterdir()):
                 r.bad.append({"suite": "cli", "what": "multiround: intermediate round files left behind", "cfg": c})
+    out_m = eval_cases("cli", "From BB Require Import Model.ObsCli.\nOpen Scope Z_scope.\n", terms, shard=100)
+    for (k, m), v in zip(meta, out_m):
+        v = v.strip().strip("()")
+        if (k == "validate" and v != "true") or (k == "plan" and v != "-1"):
+            r.bad.append({"suite": "cli", "what": f"run: {k} differs from Model/Cli.v"
+                          + (f" at call {v}" if k == "plan" else ""), "opts": m})
+    stats["model_cases"] = len(terms)
     r.cases = cases
     r.nontrivial = cases
     r.stats = stats
@@ -250,16 +361,32 @@ def suite_cli(seed, tier):
 
 def search_c15(seed, tier, failures):
     for kind, d in failures:
-        if isinstance(d, dict) and "what" in d:
-            return {"violation": d["what"], **{k: v for k, v in d.items() if k not in ("what", "suite")}}
+        if isinstance(d, dict) and "what" in d and "Model/" not in d["what"]:
+            return {"violation": d["what"], "suite_seed": seed, "tier": tier,
+                    **{k: v for k, v in d.items() if k not in ("what", "suite")}}
     rr = suite_cli(seed + 1, "quick")
     for d in rr.bad:
-        return {"violation": d["what"], **{k: v for k, v in d.items() if k not in ("what", "suite")}}
+        if "Model/" not in d["what"]:
+            return {"violation": d["what"], "suite_seed": seed + 1, "tier": "quick",
+                    **{k: v for k, v in d.items() if k not in ("what", "suite")}}
     return None
 
 
 def replay_c15(payload):
-    return search_c15(payload.get("seed", 1) - 1, "quick", []) is None
+    """re-runs the recorded option combination: the suite is deterministic in its seed, so the
+    run that produced the violation is regenerated and only the violation with the recorded text
+    and options counts; True = the property holds on it"""
+    fi = payload.get("failing_input") or {}
+    if "suite_seed" not in fi:
+        return True
+    rr = suite_cli(fi["suite_seed"], fi.get("tier", "quick"))
+    key = json.dumps(fi.get("opts", fi.get("cfg", fi.get("case"))), sort_keys=True, default=str)
+    for d in rr.bad:
+        if "Model/" in d["what"]:
+            continue
+        if json.dumps(d.get("opts", d.get("cfg", d.get("case"))), sort_keys=True, default=str) == key:
+            return False
+    return True
 
 
 if __name__ == "__main__":
